@@ -98,6 +98,18 @@ def fxOf : String → Option Bool
   | "1" => some true
   | _ => none
 
+/-- model variant: `0` = matcher and `xtypes.Identical` before their repairs, `1` = old matcher, repaired identity,
+`2` = the code as it is now (backtracking matcher, repaired identity), `3` = backtracking matcher, old identity -/
+def variantOf : String → Option (Bool × Bool)
+  | "0" => some (false, false)
+  | "1" => some (false, true)
+  | "2" => some (true, true)
+  | "3" => some (true, false)
+  | _ => none
+
+def runMatch (v : Bool × Bool) (p : Pat) (t : Ty) : Bool :=
+  if v.1 then matchTop v.2 p t else matchTopAsIs v.2 p t
+
 def bit (b : Bool) : Char := if b then '1' else '0'
 
 /-! A copy of the model's matcher in which a failed look-ahead restores the binding tables
@@ -190,8 +202,8 @@ def blame (p : Pat) (t : Ty) (impl : Bool) : String :=
 
 /-- ops:
  `tmparse <errObj> <itab> <texpr>` → the pattern tree as printed by `VerifPatternTree`, or `nil`
- `tmmatch <fx> <pat> <ty>` → `true|false`              (`Pattern.MatchIdentical`)
- `tmmatchmat <fx> (<pat>…) (<ty>…)` → one char per (pattern, type), row-major
+ `tmmatch <variant> <pat> <ty>` → `true|false`         (`Pattern.MatchIdentical`; variants: `variantOf`)
+ `tmmatchmat <variant> (<pat>…) (<ty>…)` → one char per (pattern, type), row-major
  `spec10 <pat> <ty> <true|false>` → `holds|violates|na`  (the executable statement of C10)
  `specmat10 (<pat>…) (<ty>…)` → `1|0|n` per pair          (the spec's own answer)
  `blame10 <pat> <ty> <true|false>` → the clause violated -/
@@ -204,23 +216,23 @@ def handle : List String → Option String
       | some p => pure (showPat eo p)
       | none => pure "nil"
     | _ => none
-  | "tmmatch" :: fx :: rest => do
-    let fx ← fxOf fx
+  | "tmmatch" :: v :: rest => do
+    let v ← variantOf v
     match ← sexpsOf rest with
-    | [p, t] => pure (toString (matchTop fx (← patOf p) (← tyOf t)))
+    | [p, t] => pure (toString (runMatch v (← patOf p) (← tyOf t)))
     | _ => none
   | "tmmatchrb" :: rb :: rest => do
     let rb ← fxOf rb
     match ← sexpsOf rest with
     | [p, t] => pure (toString (miRB rb MState.empty (← patOf p) (← tyOf t)).1)
     | _ => none
-  | "tmmatchmat" :: fx :: rest => do
-    let fx ← fxOf fx
+  | "tmmatchmat" :: v :: rest => do
+    let v ← variantOf v
     match ← sexpsOf rest with
     | [.list ps, .list ts] =>
       let ps ← patsOf ps
       let ts ← tysOf ts
-      pure (String.ofList (ps.flatMap fun p => ts.map fun t => bit (matchTop fx p t)))
+      pure (String.ofList (ps.flatMap fun p => ts.map fun t => bit (runMatch v p t)))
     | _ => none
   | "specmat10" :: rest => do
     match ← sexpsOf rest with
